@@ -55,7 +55,7 @@ ASSUMPTIONS = [
     "the rule 'a directive must not reference itself' is outside the property statement",
 ]
 
-SDL_MODES = ["sdl_av", "sdl", "split_av", "split_pre", "split_doc"]
+SDL_MODES = ["sdl_av", "sdl", "split_av", "split_pre", "split_doc", "split_base_av"]
 PROG_MODES = ["prog_lit", "prog_val"]
 N = len(V.MENU)
 ROOT_IDX = [i for i, m in enumerate(V.MENU) if m["id"].startswith("root.")]
@@ -93,7 +93,7 @@ def plans(tier):
             out.append(("full", shape, ["sdl", "split_av"], "singles"))
         for content, shape in (("rev", "conv"), ("chain", "def_ext_dir"), ("small", "conv_dir")):
             out.append((content, shape, ["sdl_av"], "viol2"))
-            out.append((content, shape, ["sdl", "split_av", "split_pre", "split_doc", "prog_lit", "prog_val"],
+            out.append((content, shape, ["sdl", "split_av", "split_pre", "split_doc", "split_base_av", "prog_lit", "prog_val"],
                         "singles"))
     else:
         for content in V.CONTENTS:
@@ -101,7 +101,7 @@ def plans(tier):
                 main = shape in ("conv", "def_dir_ext")
                 out.append((content, shape, ["sdl_av"] + (PROG_MODES if shape == "conv" else []), "all"))
                 out.append((content, shape, ["split_av"], "all" if main else "viol2"))
-                out.append((content, shape, ["split_pre", "split_doc"], "viol2" if main else "singles"))
+                out.append((content, shape, ["split_pre", "split_doc", "split_base_av"], "viol2" if main else "singles"))
                 # SDL pre-validation costs as much as everything else together
                 out.append((content, shape, ["sdl"], "all" if main and content in ("full", "chain") else "root"))
         out.append(("full", "def_dir_ext", ["sdl_av"], "triples"))
@@ -202,7 +202,12 @@ def build(ir, shape, mode, whole):
     if mode == "split_doc":
         text = base + "\n" + ext
         return build_ast_schema(doc(text), assume_valid_sdl=True), text
-    schema = build_ast_schema(doc(base), assume_valid_sdl=True)
+    if mode == "split_base_av":
+        # the base is declared valid by its builder; what extend_schema returns is a new schema that is not
+        schema = build_ast_schema(doc(base), assume_valid=True)
+        validate_schema(schema)
+    else:
+        schema = build_ast_schema(doc(base), assume_valid_sdl=True)
     if mode == "split_pre":
         validate_schema(schema)  # the extended schema must not inherit this verdict
     if ext:
